@@ -7,6 +7,9 @@ import Gts.Lemmas.Table
 import Gts.Model.SeqNuc
 import Gts.Props.C18
 import Gts.Lemmas.Locate
+import Gts.Lemmas.MarksOps
+import Gts.Lemmas.MarkGuardOps
+import Gts.Lemmas.Record
 namespace Gts.C05
 open Gts Loc
 
@@ -103,6 +106,67 @@ theorem revcomp_den_partial (l : Loc) (L : Int) (hw : wf l = true) (hk2 : revers
 example : wf (compl (joined [ranged 0 2 true false, ranged 4 6 false false, ranged 8 10 false true])) = true ∧
     reverseAbs (compl (joined [ranged 0 2 true false, ranged 4 6 false false, ranged 8 10 false true])) 12 = false := by
   decide
+
+/-! ### partial markers swap ends — every kind and arity
+
+`outerMarks` (`Gts/Spec/Marks.lean`) is the Lean restatement of the Go oracle
+`harness/spec.go outerMarks`: `(m5, m3)` = is the end before the first residue read / behind the
+last residue read marked partial (under a complement the reading direction flips). -/
+
+/-- FULL STATEMENT (false on the model, and on the code): "for every well-formed location the
+outer 5'/3' markers of `Reverse(l)` are those of `l`, swapped".  Witness `join(1..>4,4)` on a
+sequence of length 10: the parts reverse to `7` and `<7..10`; `Join` pushes the point first and
+then replaces it by the range that starts at it (`LocationList.Push`, case `Point`/`Ranged`), so
+the result `<7..10` carries a 5' marker in front of what was the unmarked point. -/
+theorem reverse_marks_full_refuted :
+    ¬ (∀ (l : Loc) (L : Int), wf l = true →
+        outerMarks (reverse l L) = ((outerMarks l).2, (outerMarks l).1)) := by
+  intro h
+  have := h (joined [ranged 0 4 false true, point 3]) 10 (by decide)
+  revert this
+  decide
+
+/-- **5'/3' partial markers swap ends** under `Reverse`, for every well-formed location of any
+kind, arity, nesting and strand and every length `L` (the off-by-one of K1 on between-sites is
+irrelevant: a between-site carries no marker), provided no marker-moving rule of `Push` fires in
+a `Join` of the evaluation (`reverseMarkAbs`, `Gts/Spec/MarkGuard.lean`: a point absorbed into a
+5'-partial range starting at it, or K2 on a 3'-partial range). -/
+theorem reverse_marks_partial (l : Loc) (L : Int) (hw : wf l = true)
+    (hg : reverseMarkAbs l L = false) :
+    outerMarks (reverse l L) = ((outerMarks l).2, (outerMarks l).1) :=
+  outerMarks_of_marks_swap (reverse_marks_aux l L hw hg)
+
+/-- … in particular under the hypotheses of `reverse_den_partial` plus duplicate-freeness — the
+conditions under which the Go oracle evaluates the marker clause (`nodup(d)`, guard line
+`k2.reverse`): when K2 does not fire and no residue is denoted twice, no marker-moving rule can
+fire (`Gts/Lemmas/MarkGuardNodup.lean`). -/
+theorem reverse_marks_nodup_partial (l : Loc) (L : Int) (hw : wf l = true)
+    (hk2 : reverseAbs l L = false) (hnd : (den l).Nodup) :
+    outerMarks (reverse l L) = ((outerMarks l).2, (outerMarks l).1) :=
+  reverse_marks_partial l L hw (reverseMarkAbs_of_nodup l L hw hk2 hnd)
+
+/-- non-vacuity: an odd-arity complement-strand join with both outer markers set, and a
+forward join with a between-site and a point inside -/
+example :
+    wf (compl (joined [ranged 0 2 true false, ranged 4 6 false false, ranged 8 10 false true])) = true ∧
+    reverseMarkAbs (compl (joined [ranged 0 2 true false, ranged 4 6 false false, ranged 8 10 false true])) 12 = false ∧
+    outerMarks (compl (joined [ranged 0 2 true false, ranged 4 6 false false, ranged 8 10 false true])) = (true, true) ∧
+    reverseAbs (compl (joined [ranged 0 2 true false, ranged 4 6 false false, ranged 8 10 false true])) 12 = false ∧
+    (den (compl (joined [ranged 0 2 true false, ranged 4 6 false false, ranged 8 10 false true]))).Nodup ∧
+    wf (joined [ranged 1 3 true false, between 4, point 6]) = true ∧
+    reverseMarkAbs (joined [ranged 1 3 true false, between 4, point 6]) 9 = false ∧
+    outerMarks (joined [ranged 1 3 true false, between 4, point 6]) = (true, false) ∧
+    outerMarks (reverse (joined [ranged 1 3 true false, between 4, point 6]) 9) = (false, true) := by
+  decide
+
+/-- **Reverse, record level**: every feature of a record is present in `gts.Reverse(seq)` with
+unchanged key and qualifiers and its outer partial markers on the opposite ends. -/
+theorem reverse_feature_marks_partial (s : Seq) (f : Feature) (hf : f ∈ s.feats)
+    (hw : wf f.loc = true) (hg : reverseMarkAbs f.loc s.len = false) :
+    ∃ f' ∈ s.reverse.feats, f'.key = f.key ∧ f'.props = f.props ∧
+      outerMarks f'.loc = ((outerMarks f.loc).2, (outerMarks f.loc).1) :=
+  ⟨{ f with loc := f.loc.reverse s.len }, mem_of_perm_map (reverse_table_perm s) hf, rfl, rfl,
+   reverse_marks_partial f.loc s.len hw hg⟩
 
 /-! ### sequence level: `gts.Complement` and `gts.Reverse(gts.Complement(·))` -/
 
